@@ -17,9 +17,9 @@ def run_check(prop_id, tier, seed, repo=None):
     t0 = time.time()
     repo = repo or os.environ.get("CXA_REPO", REPO)
     try:
-        mod = importlib.import_module(f"cxa.props.{prop_id.lower()}")
+        from .report import run_property
         index = get_index(repo)
-        res = mod.run(index, tier=tier, seed=seed)
+        res = run_property(prop_id, index, tier=tier, seed=seed)
         # anti-vacuity: every rule that decided something on the confirmed tree must still decide something; a rule
         # whose recogniser matches nothing any more is an analysis error (exit 2), never a silent pass
         try:
@@ -31,6 +31,9 @@ def run_check(prop_id, tier, seed, repo=None):
             raise AnalysisError(f"rule(s) {lost} decided nothing on this tree (confirmed on the pinned tree): "
                                 f"{'; '.join(res.not_in_fragment[:3]) or 'construct not recognised'}")
         code = finish(res, tier, seed, t0)
+        if res.incomplete and code == 0:
+            print(f"ANALYSIS-ERROR property={prop_id}: {res.incomplete}")
+            return 2
         if tier == "thorough" and code == 0:
             # thorough = quick + the checker self-test for this property (seeded faults must fire, rewrites stay silent)
             from .selftest import run_selftest
